@@ -19,10 +19,13 @@ def _replay(item):
         from strawberryfields import program_utils as pu
         pu.Program_current_context = None
         progs = {}
+        engine = sf.Engine("gaussian")
 
         def project():
             cur = pu.Program_current_context
             out = {"ctx": next((s for s, p in progs.items() if p is cur), 0 if cur is None else -1), "prog": {}}
+            last = engine.run_progs[-1] if engine.run_progs else None
+            out["eng"] = {"used": last is not None, "reg": [] if last is None else [bool(last.reg_refs[i].active) for i in sorted(last.reg_refs)]}
             for s, p in progs.items():
                 src = getattr(p, "source", None)
                 out["prog"][s] = {"locked": bool(p.locked), "len": len(p.circuit),
@@ -60,12 +63,14 @@ def _replay(item):
                         progs[args[0]].lock()
                     elif name == "Run":
                         sf.Engine("gaussian").run(progs[args[0]])
+                    elif name == "RunE":
+                        engine.run(progs[args[0]])
                     else:
                         raise KeyError(name)
             except Exception as e:  # noqa
                 res = type(e).__name__
             got = project()
-            exp = {"ctx": want["ctx"], "prog": {}}
+            exp = {"ctx": want["ctx"], "prog": {}, "eng": {"used": want["eng"]["used"], "reg": list(want["eng"]["reg"])}}
             for s, p in enumerate(want["prog"], start=1):
                 if p["ex"]:
                     exp["prog"][s] = {"locked": p["locked"], "len": p["len"], "reg": list(p["reg"]), "src": p["src"], "derived": p["derived"]}
@@ -79,6 +84,8 @@ def _replay(item):
             if bad is None:
                 if got["ctx"] != exp["ctx"]:
                     bad = ("ContextOwner", None)
+                elif got["eng"] != exp["eng"]:
+                    bad = ("EngineRegister", None)
                 elif set(got["prog"]) != set(exp["prog"]):
                     bad = ("Programs", None)
                 else:
@@ -110,7 +117,7 @@ def life(chk, depth, np_=3, maxreg=2, simulate=None):
     if simulate:
         kw = {"simulate": simulate, "depth": depth + 1}
     r = chk.tlc("MC_Life", constants=consts, invariants=["SourceFlat", "CtxValid", "ParentLocked", "EmitInv"],
-                properties=["LockedIsFrozen", "RefusalsChangeNothing", "GrowthNeedsContext"], **kw)
+                properties=["LockedIsFrozen", "RefusalsChangeNothing", "RefusedRunOnlyLocks", "EngineFollows", "GrowthNeedsContext"], **kw)
     items = r.json
     seen = set()
     uniq = []
@@ -124,7 +131,7 @@ def life(chk, depth, np_=3, maxreg=2, simulate=None):
         chk.traces += 1
         calls = [a["act"] for a in it["hist"]]
         refused = [a["act"] for a in it["hist"] if a["res"] != "ok"]
-        chk.count(key=("life", json.dumps(it["hist"], sort_keys=True)), nontrivial=bool(refused) or any(c in calls for c in ("Child", "Compile", "Optimize", "Run", "Lock")))
+        chk.count(key=("life", json.dumps(it["hist"], sort_keys=True)), nontrivial=bool(refused) or any(c in calls for c in ("Child", "Compile", "Optimize", "Run", "RunE", "Lock")))
         det = {"history": [[a["act"], a["args"], a["res"]] for a in it["hist"]]}
         if not o["ok"]:
             chk.violation("UnexpectedError", {"model": "life", "error": o["err"]}, dict(det, msg=o["msg"], tb=o["tb"]))
